@@ -377,7 +377,8 @@ Fixpoint expx (fuel : nat) (top : string) (mp : path) (s : xstate) : outcome xst
                                               | None => go r acc s1
                                               end
                                   end
-                              else go r acc (mkX (xt s) (xseen s) true (xdropped s) (xdone s) (xpending s))
+                              else (* an object that is not a module (its `exports` is None): TypeError caught, nothing added *)
+                                   go r acc (mkX (xt s) (xseen s) (xunsup s) (xdropped s ++ [(mp, l)]) (xdone s) (xpending s))
                           | LNone => go r acc (mkX (xt s) (xseen s) (xunsup s) (xdropped s ++ [(mp, l)]) (xdone s) (xpending s))   (* KeyError: continue *)
                           | LUnsupported => go r acc (mkX (xt s) (xseen s) true (xdropped s) (xdone s) (xpending s))
                           end
